@@ -168,6 +168,36 @@ def check(ctx: Ctx) -> None:
     for cname in MODULATOR.classes:
         analyse_class(ctx, 'C01.c', MODULATOR, cname)
 
+    # ------------------------------------------------------------------ C01.e
+    ctx.rule('C01.e', 'demodulate flattens its input in C order, the order in which `output.shape = shape` restores it', floor=1)
+    dm = M.func(FUND, 'Modulator.demodulate')
+    ctx.instance('C01.e', 'Modulator.demodulate')
+    flats = [n for n in walk_no_nested(dm.node) if isinstance(n, ast.Call) and isinstance(n.func, ast.Attribute)
+             and n.func.attr in ('flatten', 'ravel', 'reshape')] + \
+            [n for n in walk_no_nested(dm.node) if isinstance(n, ast.Call) and norm(n.func) in ('np.ravel', 'np.reshape')]
+    bad = []
+    for n in flats:
+        order = 'C'
+        for k in n.keywords:
+            if k.arg == 'order':
+                order = k.value.value if isinstance(k.value, ast.Constant) else '?'
+        if n.func.attr in ('flatten', 'ravel') and n.args and isinstance(n.args[0], ast.Constant):
+            order = n.args[0].value
+        if order != 'C':
+            bad.append((norm(n)[:60], order))
+    restores = [n for n in walk_no_nested(dm.node) if isinstance(n, ast.Assign) and isinstance(n.targets[0], ast.Attribute)
+                and n.targets[0].attr == 'shape']
+    ok = not bad and bool(flats)
+    ctx.obligation('C01.e', 'Modulator.demodulate', ok, {'flattening_calls': [norm(n)[:50] for n in flats], 'non_C_order': bad,
+                                                         'shape_restores': [norm(r) for r in restores]})
+    if not ok:
+        ctx.violation('C01.e', 'Modulator.demodulate', 'the received samples are flattened with memory order %s but the decisions are '
+                      'put back with `.shape = shape` (C order): for inputs that are not C-contiguous (a transposed view, a Fortran '
+                      'array) every decision lands at a permuted position' % bad, dm.path, dm.lineno, operand='order')
+    from ..dsf import auto_memo_check
+    ctx.rule('C01.d', 'no auto-discovered lazily filled cache of the classes in the anchored modules can be stale at the exit of a public method (dependencies = what the fill expression reads, incl. mutating calls on held sub-objects)', floor=4)
+    auto_memo_check(ctx, 'C01.d', [FUND])
+
 
 MUTANTS = [
     Mutant('delete-qam-guard', FUND, 'QAM.__init__', [('regex', r'    if power % 2 != 0 or 2 \*\* power != M:\n        raise ValueError\([^\n]*\)\n', '')],
@@ -180,6 +210,9 @@ MUTANTS = [
     Mutant('bpsk-no-input-guard', FUND, 'BPSK.modulate', [('regex', r'    if np\.any\(inputData > 1\):\n        raise ValueError\([^\n]*\)\n', '')], r'C01\.b:BPSK\.modulate'),
     Mutant('phase-offset-writes-symbols-directly', FUND, 'PSK.setPhaseOffset',
            [('regex', r'self\.setConstellation\((.*)\)$', r'self.symbols = \1')], r'C01\.c:'),
+    Mutant('demodulate-ravel-K', FUND, 'Modulator.demodulate', [('replace', 'receivedData.flatten()', "receivedData.ravel(order='K')")],
+           r'C01\.e:Modulator\.demodulate'),
+    Mutant('benign-demodulate-ravel', FUND, 'Modulator.demodulate', [('replace', 'receivedData.flatten()', 'receivedData.ravel()')], None, benign=True),
     Mutant('benign-psk-assert-to-raise', FUND, 'PSK.__init__',
            [('replace', 'assert 2 ** math.log(M, 2) == M', 'if 2 ** math.log(M, 2) != M:\n        raise ValueError("M must be a power of 2")')],
            None, benign=True),
